@@ -289,29 +289,35 @@ Definition schema_GetPictureIq :=
                                 (DEnum [s "image"; s "preview"])])).
 
 (* ================================================================== messages *)
-(* MessageProtocolEntity + MessageMetaAttributes, as the code is.  Two documented forms:
-   incoming (from, t, offline, [notify], [retry], [participant]) and outgoing (to, [participant]).
-     t       int(t) ... `timestamp or now()` ... str(t): lossless on a positive timestamp
-     offline offline in ("1", True) ... always written for an incoming message: lossless only when
-             the stanza carries it (ShReq); the wide variant below has it optional (open finding)
-     retry   int(retry) if retry else None ... written when truthy: lossless on a positive count *)
-Definition pos n c e sh := A n c e sh DDecPos.
-Definition msg_in_attrs ty offl retry :=
-  [ty; req "id"; optf "participant"; req "from"; pos "t" CIntClock EAlways ShReq; offl;
-   optf "notify"; retry].
-Definition offline_req := A "offline" b10 EAlways ShReq d01.
-Definition offline_wide := A "offline" b10 EAlways ShOpt d01.
-Definition retry_pos := pos "retry" CIntOpt EIfTruthy ShOpt.
-Definition retry_wide := A "retry" CIntOpt EIfTruthy ShOpt DDec.
+(* MessageProtocolEntity + MessageMetaAttributes, after fixes/C09-message-offline-optional.patch,
+   C09-message-retry-zero.patch and C09-message-timestamp-zero.patch.  Two documented forms:
+   incoming (from, t, [offline], [notify], [retry], [participant]) and outgoing (to, [participant]).
+     t       int(t) if t is not None ... `t if t is not None else now()` ... str(t)
+     offline None if absent else offline in ("1", True) ... written when not None
+     retry   int(retry) if retry else None ... written when not None
+   Before the patches: a zero t was replaced by the clock (`timestamp or now()`), an absent offline
+   became False and was written as "0", a zero retry was dropped (written only when truthy).     *)
+Definition msg_in_attrs ty t offl retry :=
+  [ty; req "id"; optf "participant"; req "from"; t; offl; optf "notify"; retry].
+Definition t_fixed := A "t" CIntClock EAlways ShReq DDec.
+Definition t_prefix (now : N) := A "t" (CIntOr now) EAlways ShReq DDec.
+Definition offline_fixed := A "offline" b10opt EIfNotNone ShOpt d01.
+Definition offline_prefix := A "offline" b10 EAlways ShOpt d01.
+Definition retry_fixed := A "retry" CIntOpt EIfNotNone ShOpt DDec.
+Definition retry_prefix := A "retry" CIntOpt EIfTruthy ShOpt DDec.
 Definition msg_out_attrs ty := [ty; req "id"; optf "participant"; req "to"].
 Definition ty_any := req "type".
 Definition ty_text := enum "type" ["text"].
 Definition ty_media := enum "type" ["media"].
 Definition ty_both := enum "type" ["text"; "media"].
 
-Definition msg_in ty ks := N1 "message" (msg_in_attrs ty offline_req retry_pos) DNone ks.
-Definition msg_in_offline_wide ty ks := N1 "message" (msg_in_attrs ty offline_wide retry_pos) DNone ks.
-Definition msg_in_retry_wide ty ks := N1 "message" (msg_in_attrs ty offline_req retry_wide) DNone ks.
+Definition msg_in ty ks := N1 "message" (msg_in_attrs ty t_fixed offline_fixed retry_fixed) DNone ks.
+Definition msg_in_prefix_offline ty ks :=
+  N1 "message" (msg_in_attrs ty t_fixed offline_prefix retry_fixed) DNone ks.
+Definition msg_in_prefix_retry ty ks :=
+  N1 "message" (msg_in_attrs ty t_fixed offline_fixed retry_prefix) DNone ks.
+Definition msg_in_prefix_t now ty ks :=
+  N1 "message" (msg_in_attrs ty (t_prefix now) offline_fixed retry_fixed) DNone ks.
 Definition msg_out ty ks := N1 "message" (msg_out_attrs ty) DNone ks.
 
 (* <proto [mediatype]>PAYLOAD</proto>: the data is the opaque payload *)
@@ -541,11 +547,7 @@ Definition registry : list entry := [
 (* faithful schemas of classes that lose something on their documented shape (open findings) *)
 Definition refuted : list entry := [
   ev "ErrorIqProtocolEntity" "backoff=0" 0 1 schema_ErrorIq_wide;
-  ev "RemoveGroupsNotificationProtocolEntity" "mode attribute" 0 1 schema_RemoveGroupsNotification_mode;
-  ev "MessageProtocolEntity" "offline optional" 0 1 (msg_in_offline_wide ty_any KNil);
-  ev "MessageProtocolEntity" "retry=0" 0 1 (msg_in_retry_wide ty_any KNil);
-  ev "TextMessageProtocolEntity" "offline optional" 0 1 (msg_in_offline_wide ty_text proto_text);
-  ev "EncryptedMessageProtocolEntity" "offline optional" 0 1 (msg_in_offline_wide ty_both enc_kids)
+  ev "RemoveGroupsNotificationProtocolEntity" "mode attribute" 0 1 schema_RemoveGroupsNotification_mode
 ].
 
 (* pre-fix variants, kept so that the regression is recognised if it returns *)
@@ -555,7 +557,10 @@ Definition prefix_variants : list entry := [
   ev "InfoGroupsResultIqProtocolEntity" "pre-fix" 0 2 schema_InfoGroupsResultIq_prefix;
   ev "CreateGroupsNotificationProtocolEntity" "pre-fix" 0 2 schema_CreateGroupsNotification_prefix;
   ev "GetSyncIqProtocolEntity" "pre-fix" 1 2 (schema_GetSyncIq last_prefix);
-  ev "ResultSyncIqProtocolEntity" "pre-fix" 0 2 (schema_ResultSyncIq last_prefix)
+  ev "ResultSyncIqProtocolEntity" "pre-fix" 0 2 (schema_ResultSyncIq last_prefix);
+  ev "MessageProtocolEntity" "pre-fix offline" 0 2 (msg_in_prefix_offline ty_any KNil);
+  ev "MessageProtocolEntity" "pre-fix retry" 0 2 (msg_in_prefix_retry ty_any KNil);
+  ev "MessageProtocolEntity" "pre-fix t (clock at 1700000000)" 0 2 (msg_in_prefix_t 1700000000 ty_any KNil)
 ].
 
 (* fully evaluated, so that the extracted model does not depend on Coq's String module (its
